@@ -96,11 +96,17 @@ def coq_make(targets, timeout=1500):
 
 def hygiene(dirs):
     hits = []
+    paths = []
     for d in dirs:
-        for root, _, files in os.walk(os.path.join(COQ, d)):
-            for f in files:
-                if f.endswith(".v"):
-                    p = os.path.join(root, f)
+        full = os.path.join(COQ, d)
+        if os.path.isfile(full):
+            paths.append(full)
+        for root, _, files in os.walk(full):
+            paths.extend(os.path.join(root, f) for f in files if f.endswith(".v"))
+    for p in paths:
+        if True:
+            if True:
+                if True:
                     txt = open(p, encoding="utf-8", errors="replace").read()
                     txt = re.sub(r"\(\*.*?\*\)", " ", txt, flags=re.S)
                     for m in HYGIENE_RE.finditer(txt):
@@ -310,7 +316,7 @@ def run_check(pid, tier, replay=None):
         if hasattr(P, "gen_tables"):
             P.gen_tables(impl_dir, os.path.join(COQ, "Gen"))
         # ---- proofs
-        hy = hygiene(["Base", "Gen", "Properties", pid] + list(getattr(P, "COQ_DIRS", [])))
+        hy = hygiene(["Base", "Gen", "Properties/%s.v" % pid, pid] + list(getattr(P, "COQ_DIRS", [])))
         targets = ["Properties/%s.vo" % pid, P.COQ_REQUIRE.replace(".", "/") + ".vo"]
         ok_make, make_log = coq_make(targets)
         pinfo = coq_property_file(pid) if ok_make else {"ok": False, "theorems": re.findall(
